@@ -81,6 +81,8 @@ def zoom_cases(draw):
             tm = derivable or [lcm_]
     else:
         tm = derivable or [lcm_ * 2]
+    if len(base_mults) >= 2 and ladder != "non-derivable" and draw(st.booleans()):
+        tm = tm + [2 * m_ for m_ in base_mults]     # one derived level per base, processed in ascending order
     if draw(st.booleans()):
         tm = tm + [draw(st.sampled_from(tm))]      # duplicate member
     tm = list(draw(st.permutations(tm)))
@@ -89,7 +91,8 @@ def zoom_cases(draw):
             "chunksize": draw(st.sampled_from([1, 3, 10, 10**6])), "nproc": draw(st.sampled_from([1] * 12 + [2])),
             "cols": draw(st.sampled_from([None, None, ["count"], ["count", "x"]])),
             "base_order": list(draw(st.permutations(list(range(len(base_mults)))))),
-            "base_dtypes": [draw(st.sampled_from(["int32", "int32", "float64", "int64"])) for _ in base_mults]}
+            "base_dtypes": (["int32", "float64", "float64"][: len(base_mults)] if (not consistent and draw(st.booleans()))
+                            else [draw(st.sampled_from(["int32", "int32", "float64", "int64"])) for _ in base_mults])}
 
 
 def _read(clr, cols):
